@@ -120,7 +120,7 @@ def run_case(c, wd, idx):
         try:
             with alarm(180):
                 extra = {} if c.get("exchange_interval") is None else {"exchange_interval": c["exchange_interval"]}
-                ctrl.sample(samplers, files, posteriors, overwrite_existing_files=True, proposals=c["P"], exchange=False,
+                ctrl.sample(samplers, files, posteriors, overwrite_existing_files=common.spell_bool(True), proposals=c["P"], exchange=common.spell_bool(False),
                             initial_model=copy.deepcopy(im), kwargs=copy.deepcopy(kw), **extra)
         except Watchdog:
             os.cpu_count = real_count
